@@ -88,4 +88,72 @@ theorem trailing_first_verbatim (c : Cmd) (similar : Bytes → Bytes → Bool) (
     resolvePending, hterm, pendingPush, hmul]
   simp [hpd]
 
+/-- in trailing mode at the last positional the "correct pos_counter" block leaves the counter where it is,
+whatever the next token looks like -/
+theorem correctPosCounter_last (c : Cmd) (ls : LoopSt) (peek : Option Bytes)
+    (htr : ls.trailing = true) (hpc : ls.posCounter = c.positionalCount) :
+    correctPosCounter c ls peek = c.positionalCount := by
+  unfold correctPosCounter
+  simp [hpc, htr]
+
+/-- **the whole tail reaches the last positional, byte for byte and in order**: in trailing mode, with
+the command's last positional `a` taking several values (and no terminator) and already collecting,
+ANY list of tokens is appended unchanged to its pending values and the loop ends normally - no token is
+dropped, reordered, split or interpreted. Induction over the tail; no bound on its length or contents. -/
+theorem trailing_tail_collected (c : Cmd) (similar : Bytes → Bytes → Bool) (a : Arg)
+    (hpos : c.getPos c.positionalCount = some a) (hmul : a.isMultiple = true) (hmv : a.isMultipleValues = true)
+    (hterm : a.terminator = none) :
+    ∀ (toks : List Bytes) (ls : LoopSt) (p : P) (pd : Pending), ls.trailing = true → ls.posCounter = c.positionalCount →
+      p.pending = some pd → pd.id = a.id → pd.ident = some .index → toks ≠ [] →
+      loop c similar ls toks p =
+        ({ p with pending := some { pd with rawVals := pd.rawVals ++ toks,
+                                            trailingIdx := some (pd.trailingIdx.getD pd.rawVals.length) } }, .ok .done) := by
+  intro toks
+  induction toks with
+  | nil => intro _ _ _ _ _ _ _ _ h; exact absurd rfl h
+  | cons tok rest ih =>
+    intro ls p pd htr hpc hpd hid hident _
+    have hcp := correctPosCounter_last c ls rest.head? htr hpc
+    have ht : isTerminator a tok = false := by simp [isTerminator, hterm]
+    rw [trailing_push_verbatim c similar ls tok rest p a htr (by rw [hcp]; exact hpos) hmul hmv ht pd hpd hid hident]
+    cases rest with
+    | nil => simp [loop]
+    | cons t2 r2 =>
+      rw [ih _ _ { pd with rawVals := pd.rawVals ++ [tok], trailingIdx := some (pd.trailingIdx.getD pd.rawVals.length) }
+        rfl (by simpa using hcp) rfl hid hident (by simp)]
+      simp
+
+/-- **`--` then anything**: when the last positional takes several values, is next in line and nothing
+is pending, the tokens after a bare `--` - whatever they are - become exactly its raw values, in order -/
+theorem escape_then_tail (c : Cmd) (similar : Bytes → Bytes → Bool) (a : Arg) (ls : LoopSt) (p : P)
+    (tok : Bytes) (toks : List Bytes)
+    (hpos : c.getPos c.positionalCount = some a) (hmul : a.isMultiple = true) (hmv : a.isMultipleValues = true)
+    (hterm : a.terminator = none)
+    (htr : ls.trailing = false) (hst : ls.st = .valuesDone) (hpc : ls.posCounter = c.positionalCount)
+    (hpd : p.pending = none)
+    (hsc : possibleSubcommand c [Bytes.dash, Bytes.dash] ls.validArgFound = none) :
+    loop c similar ls ([Bytes.dash, Bytes.dash] :: tok :: toks) p =
+      ({ p with pending := some { id := a.id, ident := some .index, rawVals := tok :: toks, trailingIdx := some 0 } },
+        .ok .done) := by
+  rw [escape_sets_trailing c similar ls (tok :: toks) p htr (by simp [hst, hsc]) none (by simp [stateArg, hst]) rfl]
+  have hst' : startTrailing p = p := by simp [startTrailing, hpd]
+  rw [hst']
+  have hcp := correctPosCounter_last c { ls with trailing := true } toks.head? rfl hpc
+  have ht : isTerminator a tok = false := by simp [isTerminator, hterm]
+  rw [trailing_first_verbatim c similar _ tok toks p a rfl (by rw [hcp]; exact hpos) hmul ht hpd]
+  cases toks with
+  | nil => simp [loop]
+  | cons t2 r2 =>
+    rw [trailing_tail_collected c similar a hpos hmul hmv hterm (t2 :: r2) _ _
+      { id := a.id, ident := some .index, rawVals := [tok], trailingIdx := some 0 } rfl (by simpa using hcp) rfl rfl rfl (by simp)]
+    simp
+
+/-- the hypotheses of `escape_then_tail` are met by `prog [files]...` (one positional taking any number of values) -/
+example :
+    let a : Arg := { id := [102], index := some 1, numVals := some ⟨1, none⟩ }
+    let c : Cmd := .mk [112] [] none none [] [] {} [a] [] []
+    c.getPos c.positionalCount = some a ∧ a.isMultiple = true ∧ a.isMultipleValues = true ∧ a.terminator = none ∧
+      possibleSubcommand c [Bytes.dash, Bytes.dash] false = none := by
+  decide
+
 end Clap.C05
